@@ -249,6 +249,13 @@ func (x *Ex) genFuncsMore(body *LeanFile) {
 		{"internal/markup/opengraph", "Parser", "OptOut"},
 		{"internal/markup/opengraph", "PrefixNameList", "setDefault"},
 	})
+	// the word counters: what Model/Words.lean models
+	x.bodyGroup(body, "wordCounterBodies", []string{"C09"}, [][3]string{
+		{"internal/stringutil", "FullWordCounter", "Count"},
+		{"internal/stringutil", "LetterWordCounter", "Count"},
+		{"internal/stringutil", "FastWordCounter", "Count"},
+		{"internal/stringutil", "", "SelectWordCounter"},
+	})
 	// the prefix test whose success licenses `linkHref[lenPrefix:]` in PrevNextFinder.FindOutlink
 	x.bodyStmts(body, "internal/stringutil", "", "HasPrefixIgnoreCase", "hasPrefixIgnoreCaseBody", "C01", "C16")
 }
